@@ -82,6 +82,15 @@ def step (s : St) (line : String) : St × String :=
       | none => (s, "invalid")
     | none => (s, "bad-op")
   | ["woken"] => (s, s!"woken {showList s.e.woken}")
+  | ["qdump"] =>
+    -- the intrusive queue model (Model/QueueIntrusive.lean) replaying the queue calls of the executor model
+    if !s.e.alive then (s, "q dead") else
+    match Compio.QueueIntrusive.runOps Compio.QueueIntrusive.IQ.empty s.e.qlog with
+    | none => (s, "q panic")
+    | some c =>
+      let a := Compio.QueueIntrusive.abs c
+      let so := fun (o : Option Nat) => match o with | some k => toString k | none => "-"
+      (s, s!"q hot={showList a.1} cold={showList a.2} ht={so c.hotTail} ct={so c.coldTail}")
   | ws =>
     match parseOp s.n ws with
     | some op => let r := applyR s.e op; ({ s with e := r.1 }, showResp r.2)
